@@ -21,7 +21,7 @@ structure Config where
 
 /-- `routeMap[route.Path] = route` for every route in order: the last one of a path wins -/
 def lookupLast (rs : List Route) (p : String) : Option Route :=
-  rs.foldl (fun acc r => if r.path == p then some r else acc) none
+  rs.reverse.find? fun r => r.path == p
 
 def sortedNames (rs : List Route) : List String :=
   (rs.map (·.name)).mergeSort (fun a b => decide (a ≤ b))
